@@ -95,3 +95,9 @@ contract(P + "DecayModelAliasReplacement.model", types={"treelist": "list"},
          ],
          raises={"ValueError": f"typ(lget(treelist, 0), 'obj:Tree') and not dhas({ADEFS}, lget(lget(treelist, 0).children, 0).value)"},
          returns="obj:Tree", properties=["C05", "C06"])
+
+contract(P + "ChargeConjugateReplacement.__init__", types={"charge_conj_defs": "dict|none"},
+         ensures=["typ(self.charge_conj_defs, 'dict')",
+                  "implies(charge_conj_defs is not None and dlen(charge_conj_defs) > 0, same(self.charge_conj_defs, charge_conj_defs))",
+                  "implies(charge_conj_defs is None or dlen(charge_conj_defs) == 0, isfresh(self.charge_conj_defs) and dlen(self.charge_conj_defs) == 0)"],
+         modifies=["self"], modifies_fields=["charge_conj_defs"], returns="none", properties=["C03"])
